@@ -1,12 +1,17 @@
 (* C20 — Interpolation and linear algebra over the scalar fields are exact.
    Property theorems only; proofs are in proofs/LinAlg_proofs.v, proofs/Poly_proofs.v,
    proofs/Interp_proofs.v.  The models (model/LinAlg.v, model/Poly.v, model/Interp.v) are
-   hand-written after /repo/pkg/base/{mat,polynomials} and tied by the correspondence
-   check; every theorem is over an arbitrary field record K with [flaws K] and over
-   arbitrary sizes.  (Go matrices always have >= 1 row and >= 1 column.) *)
-From Coq Require Import List.
+   hand-written after /repo/pkg/base/{mat,polynomials} (loop for loop) and tied to the code
+   by the correspondence check; every theorem is over an arbitrary field record K with
+   [flaws K] (base/Fld.v; an executable instance with proved laws is base/ZpField.v, a field
+   under the hypothesis [prime p]) and over arbitrary sizes.  Go matrices always have >= 1
+   row and >= 1 column (NewMatrixModule refuses 0), hence the [0 < r], [0 < c] guards. *)
+From Coq Require Import List ZArith.
 Import ListNotations.
-Require Import V.base.Fld V.model.LinAlg V.proofs.LinAlg_proofs.
+Require Import V.base.Fld V.base.ZpField V.model.LinAlg V.model.Poly V.model.Interp.
+Require Import V.proofs.LinAlg_proofs V.proofs.Poly_proofs V.proofs.Interp_proofs V.proofs.Birkhoff_proofs.
+
+(* ---- linear solving -------------------------------------------------------------------- *)
 
 (* (a) SolveRight: a returned vector solves the system *)
 Theorem C20_solve_right_sound : forall (F : Type) (K : fops F), flaws K ->
@@ -24,7 +29,8 @@ Theorem C20_solve_right_complete : forall (F : Type) (K : fops F), flaws K ->
 Proof. exact @solve_right_complete. Qed.
 Print Assumptions C20_solve_right_complete.
 
-(* failure is reported exactly when no solution exists (every shape: over-, under-determined, rank-deficient) *)
+(* failure is reported exactly when no solution exists — every shape: over-, under-determined,
+   rank-deficient *)
 Theorem C20_solve_right_none_iff : forall (F : Type) (K : fops F), flaws K ->
   forall r c (M : @matrix F) b,
   wf_matrix r c M -> 0 < r -> 0 < c -> length b = r ->
@@ -32,7 +38,7 @@ Theorem C20_solve_right_none_iff : forall (F : Type) (K : fops F), flaws K ->
 Proof. exact @solve_right_none_iff. Qed.
 Print Assumptions C20_solve_right_none_iff.
 
-(* (c) SolveLeft *)
+(* (c) SolveLeft  (x·M = r through [M^T | r^T]) *)
 Theorem C20_solve_left_sound : forall (F : Type) (K : fops F), flaws K ->
   forall r c (M : @matrix F) rv x,
   wf_matrix r c M -> 0 < r -> 0 < c -> length rv = c ->
@@ -46,3 +52,217 @@ Theorem C20_solve_left_none_iff : forall (F : Type) (K : fops F), flaws K ->
   (solve_left K M rv = None <-> ~ exists y, length y = r /\ vecm K y M = rv).
 Proof. exact @solve_left_none_iff. Qed.
 Print Assumptions C20_solve_left_none_iff.
+
+(* the augmented-matrix core: Gauss–Jordan preserves the solution set ([ker aug (x ++ [-1])]
+   says x solves [A | b]) *)
+Theorem C20_solve_augmented_sound : forall (F : Type) (K : fops F), flaws K ->
+  forall r n (aug : @matrix F) x,
+  wf_matrix r (S n) aug -> 0 < r -> solve_augmented K aug = Some x ->
+  length x = n /\ ker K aug (x ++ [fopp K (f1 K)]).
+Proof. exact @solve_augmented_sound. Qed.
+Print Assumptions C20_solve_augmented_sound.
+
+Theorem C20_solve_augmented_complete : forall (F : Type) (K : fops F), flaws K ->
+  forall r n (aug : @matrix F) y,
+  wf_matrix r (S n) aug -> 0 < r -> length y = n -> ker K aug (y ++ [fopp K (f1 K)]) ->
+  solve_augmented K aug <> None.
+Proof. exact @solve_augmented_complete. Qed.
+Print Assumptions C20_solve_augmented_complete.
+
+(* ---- inverse ------------------------------------------------------------------------------ *)
+
+(* (d) TryInv: a returned matrix is a two-sided inverse *)
+Theorem C20_try_inv_sound : forall (F : Type) (K : fops F), flaws K ->
+  forall n (M N : @matrix F), wf_matrix n n M -> 0 < n ->
+  try_inv K M = Some N ->
+  wf_matrix n n N /\ mmul K M N = identity K n /\ mmul K N M = identity K n.
+Proof. exact @try_inv_sound. Qed.
+Print Assumptions C20_try_inv_sound.
+
+(* ... and failure ("matrix is singular") means there is not even a left inverse *)
+Theorem C20_try_inv_complete : forall (F : Type) (K : fops F), flaws K ->
+  forall n (M : @matrix F), wf_matrix n n M -> 0 < n ->
+  try_inv K M = None -> ~ exists N, wf_matrix n n N /\ mmul K N M = identity K n.
+Proof. exact @try_inv_complete. Qed.
+Print Assumptions C20_try_inv_complete.
+
+Theorem C20_try_inv_none_iff : forall (F : Type) (K : fops F), flaws K ->
+  forall n (M : @matrix F), wf_matrix n n M -> 0 < n ->
+  (try_inv K M = None <->
+   ~ exists N, wf_matrix n n N /\ mmul K M N = identity K n /\ mmul K N M = identity K n).
+Proof. exact @try_inv_none_iff. Qed.
+Print Assumptions C20_try_inv_none_iff.
+
+(* (g) Determinant returns zero exactly when TryInv reports "singular", i.e. exactly on the
+   matrices without an inverse *)
+Theorem C20_det_zero_iff : forall (F : Type) (K : fops F), flaws K ->
+  forall n (M : @matrix F), wf_matrix n n M -> 0 < n ->
+  (determinant K M = f0 K <-> try_inv K M = None).
+Proof. exact @det_zero_iff. Qed.
+Print Assumptions C20_det_zero_iff.
+
+Theorem C20_det_zero_iff_singular : forall (F : Type) (K : fops F), flaws K ->
+  forall n (M : @matrix F), wf_matrix n n M -> 0 < n ->
+  (determinant K M = f0 K <->
+   ~ exists N, wf_matrix n n N /\ mmul K M N = identity K n /\ mmul K N M = identity K n).
+Proof. exact @det_zero_iff_singular. Qed.
+Print Assumptions C20_det_zero_iff_singular.
+
+(* ---- product, transpose, lifting --------------------------------------------------------------- *)
+
+(* (e) *)
+Theorem C20_mmul_assoc : forall (F : Type) (K : fops F), flaws K ->
+  forall r m p q (A B C : @matrix F),
+  wf_matrix r m A -> wf_matrix m p B -> wf_matrix p q C -> 0 < m -> 0 < p ->
+  mmul K (mmul K A B) C = mmul K A (mmul K B C).
+Proof. exact @mmul_assoc. Qed.
+Print Assumptions C20_mmul_assoc.
+
+Theorem C20_transpose_mul : forall (F : Type) (K : fops F), flaws K ->
+  forall r m c (A B : @matrix F),
+  wf_matrix r m A -> wf_matrix m c B -> 0 < r -> 0 < m -> 0 < c ->
+  transpose K (mmul K A B) = mmul K (transpose K B) (transpose K A).
+Proof. exact @transpose_mul. Qed.
+Print Assumptions C20_transpose_mul.
+
+Theorem C20_mvec_mmul : forall (F : Type) (K : fops F), flaws K ->
+  forall r m c (A B : @matrix F) x,
+  wf_matrix r m A -> wf_matrix m c B -> 0 < m -> length x = c ->
+  mvec K (mmul K A B) x = mvec K A (mvec K B x).
+Proof. exact @mvec_mmul. Qed.
+Print Assumptions C20_mvec_mmul.
+
+Theorem C20_mmul_identity : forall (F : Type) (K : fops F), flaws K ->
+  forall r c (M : @matrix F), wf_matrix r c M -> 0 < r -> 0 < c ->
+  mmul K (identity K r) M = M /\ mmul K M (identity K c) = M.
+Proof. exact @mmul_identity. Qed.
+Print Assumptions C20_mmul_identity.
+
+(* "in the exponent": acting with a scalar matrix commutes with lifting, for every module
+   satisfying [mlaws] (a prime-order group written additively) and all shapes *)
+Theorem C20_lift_left_action : forall (F : Type) (K : fops F), flaws K ->
+  forall (G : Type) (Mo : mops G F), mlaws K Mo ->
+  forall (A X : @matrix F) g, left_action Mo A (lift Mo X g) = lift Mo (mmul K A X) g.
+Proof. exact @lift_left_action. Qed.
+Print Assumptions C20_lift_left_action.
+
+Theorem C20_lift_right_action : forall (F : Type) (K : fops F), flaws K ->
+  forall (G : Type) (Mo : mops G F), mlaws K Mo ->
+  forall (X A : @matrix F) g, right_action K Mo (lift Mo X g) A = lift Mo (mmul K X A) g.
+Proof. exact @lift_right_action. Qed.
+Print Assumptions C20_lift_right_action.
+
+(* ---- polynomials and interpolation ---------------------------------------------------------------- *)
+
+(* the coded Horner loop is evaluation *)
+Theorem C20_peval_horner : forall (F : Type) (K : fops F), flaws K ->
+  forall p x, peval K p x = peval_r K p x.
+Proof. exact @peval_eq_peval_r. Qed.
+Print Assumptions C20_peval_horner.
+
+(* root counting: fewer coefficients than distinct roots => the zero polynomial *)
+Theorem C20_poly_roots_all0 : forall (F : Type) (K : fops F), flaws K ->
+  forall (roots p : list F), NoDup roots -> length p <= length roots ->
+  (forall r, In r roots -> peval_r K p r = f0 K) -> all0 K p.
+Proof. exact @poly_roots_all0. Qed.
+Print Assumptions C20_poly_roots_all0.
+
+(* (f) Lagrange: distinct nodes, deg < n  =>  InterpolateAt recovers the polynomial's value
+   at every point (node 0 or not, sorted or not, any size) *)
+Theorem C20_lagrange_interp : forall (F : Type) (K : fops F), flaws K ->
+  forall xs p at_, NoDup xs -> length p <= length xs ->
+  lagrange_interpolate_at K xs (map (peval K p) xs) at_ = Ok (peval K p at_).
+Proof. exact @lagrange_interp. Qed.
+Print Assumptions C20_lagrange_interp.
+
+(* the error is returned exactly for duplicate nodes *)
+Theorem C20_lagrange_error_iff_dup : forall (F : Type) (K : fops F), flaws K ->
+  forall xs at_, basis_at K xs at_ = None <-> ~ NoDup xs.
+Proof. exact @basis_at_none_iff_dup. Qed.
+Print Assumptions C20_lagrange_error_iff_dup.
+
+Theorem C20_lagrange_dup_error : forall (F : Type) (K : fops F), flaws K ->
+  forall xs ys at_, length ys = length xs -> ~ NoDup xs ->
+  lagrange_interpolate_at K xs ys at_ = Err ErrDiv.
+Proof. exact @lagrange_dup_error. Qed.
+Print Assumptions C20_lagrange_dup_error.
+
+(* interpolation in the exponent commutes with lifting, for all inputs (errors included) *)
+Theorem C20_interp_in_exponent : forall (F : Type) (K : fops F), flaws K ->
+  forall (G : Type) (Mo : mops G F), mlaws K Mo ->
+  forall xs ys g at_,
+  lagrange_interpolate_in_exponent_at K Mo xs (map (fun y => gsmul Mo g y) ys) at_ =
+  match lagrange_interpolate_at K xs ys at_ with Ok v => Ok (gsmul Mo g v) | Err e => Err e end.
+Proof. exact @lagrange_interp_in_exponent. Qed.
+Print Assumptions C20_interp_in_exponent.
+
+Theorem C20_interp_in_exponent_correct : forall (F : Type) (K : fops F), flaws K ->
+  forall (G : Type) (Mo : mops G F), mlaws K Mo ->
+  forall xs p g at_, NoDup xs -> length p <= length xs ->
+  lagrange_interpolate_in_exponent_at K Mo xs (map (fun y => gsmul Mo g y) (map (peval K p) xs)) at_
+  = Ok (gsmul Mo g (peval K p at_)).
+Proof. exact @lagrange_interp_exponent_correct. Qed.
+Print Assumptions C20_interp_in_exponent_correct.
+
+(* Vandermonde (through SolveRight): recovers the coefficients, never fails on distinct nodes *)
+Theorem C20_vandermonde_interp : forall (F : Type) (K : fops F), flaws K ->
+  forall xs p, xs <> [] -> NoDup xs -> length p <= length xs ->
+  vandermonde_interpolate K xs (map (peval K p) xs) = Ok (p ++ repeat (f0 K) (length xs - length p)).
+Proof. exact @vandermonde_interp. Qed.
+Print Assumptions C20_vandermonde_interp.
+
+Theorem C20_vandermonde_total : forall (F : Type) (K : fops F), flaws K ->
+  forall xs ys, xs <> [] -> NoDup xs -> length ys = length xs ->
+  exists c, vandermonde_interpolate K xs ys = Ok c /\ length c = length xs /\ map (peval K c) xs = ys.
+Proof. exact @vandermonde_total. Qed.
+Print Assumptions C20_vandermonde_total.
+
+(* Birkhoff: the generalised Vandermonde matrix built by birkhoff.BuildVandermondeMatrix is the
+   matrix of the derivative constraints: a coefficient vector solves V·P = ys iff P^(j_i)(x_i) = y_i
+   for every node (coded Derivative iterated j_i times, coded Eval), for all node sets and orders.
+
+   birkhoff_interp (full statement, NOT proved): birkhoff_interpolate K fkey xs js ys = Ok P ->
+     forall i < length xs, peval K (pderiv_iter K (N.to_nat (nth i js 0)) P) (nth i xs 0) = nth i ys 0,
+   and Err ErrSingular is returned only when the Birkhoff matrix is singular (the latter half is
+   C20_det_zero_iff_singular applied to the model's determinant test).  The code computes P by
+   Cramer's rule (SetColumn + Determinant, minors in the exponent); what is missing is that the
+   elimination-coded [determinant] is the Leibniz determinant (det_value), hence Cramer's rule.
+   The proved part below reduces the statement to the linear system; the correspondence check
+   evaluates the constraints on every polynomial the implementation returns. *)
+Theorem C20_birkhoff_interp_partial : forall (F : Type) (K : fops F), flaws K ->
+  forall xs js ys P, length xs = length js -> length ys = length xs ->
+  (mvec K (build_birkhoff K xs js (length P)) P = ys <->
+   forall i, i < length xs ->
+     peval K (pderiv_iter K (N.to_nat (nth i js 0%N)) P) (nth i xs (f0 K)) = nth i ys (f0 K)).
+Proof. exact @birkhoff_system_iff_constraints. Qed.
+Print Assumptions C20_birkhoff_interp_partial.
+
+(* ---- non-vacuity: the hypotheses are met by concrete non-trivial instances ------------------------- *)
+
+(* Z_7 with proved laws: a rank-deficient, under-determined system [[1 2 3][2 4 6]]·x = (3,6) *)
+Example C20_nonvacuous_field : flaws (ZpS 7 (prime_gt0 7 prime_7)).
+Proof. exact ZpS_7_flaws. Qed.
+
+Example C20_nonvacuous_solve :
+  let K := ZpS 7 (prime_gt0 7 prime_7) in
+  let z := zp_of 7 (prime_gt0 7 prime_7) in
+  let M := [[z 1; z 2; z 3]; [z 2; z 4; z 6]]%Z in
+  wf_matrix 2 3 M /\ (exists x, solve_right K M [z 3; z 6]%Z = Some x) /\
+  solve_right K M [z 3; z 5]%Z = None.
+Proof.
+  cbv zeta. split; [|split].
+  - split; [reflexivity|repeat constructor].
+  - eexists. vm_compute. reflexivity.
+  - vm_compute. reflexivity.
+Qed.
+
+(* raw Z_101: cubic through 4 distinct unsorted nodes, and the duplicate-node error *)
+Example C20_nonvacuous_lagrange :
+  NoDup [4; 9; 1; 50]%Z /\
+  lagrange_interpolate_at (Zp 101) [4; 9; 1; 50]%Z (map (peval (Zp 101) [3; 5; 7; 2]%Z) [4; 9; 1; 50]%Z) 77%Z
+    = Ok (peval (Zp 101) [3; 5; 7; 2]%Z 77%Z) /\
+  lagrange_interpolate_at (Zp 101) [4; 9; 4]%Z [1; 2; 1]%Z 0%Z = Err ErrDiv.
+Proof.
+  split; [|split]; [|vm_compute; reflexivity|vm_compute; reflexivity].
+  repeat constructor; cbn; intuition discriminate.
+Qed.
